@@ -1,0 +1,13 @@
+//go:build !verif
+
+package validate
+
+// Verification hooks (see verif_on.go). Without the "verif" build tag they are empty and inlined away.
+
+func verifRedeem(string, any) bool { return false }
+
+func verifBorrow(string, any) {}
+
+func verifGate(string) {}
+
+func verifPhase(string, *Result, *Result) {}
